@@ -75,6 +75,11 @@ func init() {
 			rulePathFresh(w, r, v2, "v2")
 			ruleKinds(w, r, v2)
 			ruleProv(w, r, v2, "v2", v2Prov)
+			nt := newNodeTypes(w, v2, "v2")
+			ruleHashMove(w, r, nt)
+			ruleHashCover(w, r, nt)
+			ruleDeleteVoid(w, r, pf)
+			ruleObjRecurse(w, r, v2, "v2")
 			r.Floor("R-PATHFRESH", 15)
 			r.Floor("R-KINDS", 5)
 			r.Floor("R-FWD", 50)
@@ -137,6 +142,7 @@ func init() {
 		Assumptions: append([]string{"the compiler's bounds-check elimination is semantics-preserving (a check it removed cannot fail)", "maps held by jsonObject values are non-nil (constructor invariant)"}, commonAssumptions...),
 		Run: func(w *World, r *Report) {
 			rulePanic(w, r, w.Pkg(pathV2))
+			ruleRawArg(w, r, w.Pkg(pathV2))
 			runCLI(w, r, "nopanic", "exit")
 			r.Floor("R-PANIC", 150)
 			r.Floor("R-CLI/E3", 40)
@@ -215,6 +221,8 @@ func init() {
 			ruleOptFwd(w, r, v2, "v2", "Option", diffSide, nil)
 			ruleCongruence(w, r, nt)
 			ruleHashMove(w, r, nt)
+			ruleHashCover(w, r, nt)
+			ruleObjRecurse(w, r, v2, "v2")
 			ruleNoEmpty(w, r, v2, "v2", "Remove", "Add")
 			ruleHashDom(w, r, nt, map[string]bool{"jsonString": true, "jsonNumber": true, "jsonBool": true, "jsonNull": true, "jsonList": true, "jsonObject": true})
 			runCLI(w, r, "exit", "havediff", "optfwd")
@@ -237,6 +245,7 @@ func init() {
 			ruleKinds(w, r, v2)
 			ruleIdentUse(w, r, v2, "v2")
 			ruleIdentProv(w, r, v2, "v2")
+			ruleSearchAll(w, r, pf, setModePatch)
 			r.Floor("R-EXPECT", 6)
 		}})
 }
@@ -254,6 +263,10 @@ func init() {
 			ruleOptFwd(w, r, v2, "v2", "Option", diffSide, nil)
 			ruleSetMember(w, r, v2, "v2", "Remove", "Add")
 			ruleWholeObject(w, r, v2, "v2", "Add")
+			ruleObjRecurse(w, r, v2, "v2")
+			nt := newNodeTypes(w, v2, "v2")
+			ruleHashMove(w, r, nt)
+			ruleHashCover(w, r, nt)
 			ruleProv(w, r, v2, "v2", v2Prov)
 			rulePathFresh(w, r, v2, "v2")
 			r.Floor("R-PROV", 20)
@@ -272,6 +285,7 @@ func init() {
 			rulePathFresh(w, r, v2, "v2")
 			rulePathTab(w, r, v2)
 			ruleJSONCodec(w, r, v2, "v2")
+			ruleScanErr(w, r, v2, "v2")
 			r.Floor("R-AUTOMATON", 50)
 			r.Floor("R-PATHTAB", 6)
 		}})
@@ -287,6 +301,7 @@ func init() {
 			ruleYamlTypes(w, r, v2)
 			ruleCodecRoutes(w, r, v2, "v2")
 			ruleRenderIdentity(w, r, v2)
+			ruleRawArg(w, r, v2)
 			ruleRawTypes(w, r, v2)
 			ruleJSONCodec(w, r, v2, "v2")
 			r.Floor("R-YAMLTYPES", 12)
@@ -304,6 +319,7 @@ func init() {
 			rulePtr(w, r, v2, "v2")
 			rulePair(w, r, v2, "v2")
 			ruleRevAdd(w, r, v2, "v2", "Add")
+			rulePtrAgree(w, r, v2)
 			rulePureEntries(w, r, v2, newPatchFamily(w, v2, "v2"), map[string]bool{"Diff.RenderPatch": true})
 			r.Floor("R-PTR", 6)
 		}})
@@ -316,6 +332,8 @@ func init() {
 			ruleOpSubset(w, r, v2)
 			ruleParent(w, r, v2)
 			rulePtrRead(w, r, v2)
+			rulePtrAgree(w, r, v2)
+			rulePtr(w, r, v2, "v2")
 			rulePrepend(w, r, v2)
 			pf := newPatchFamily(w, v2, "v2")
 			ruleFWD(w, r, pf, []string{"before", "after"})
@@ -331,6 +349,7 @@ func init() {
 			ruleMergeHunkDiff(w, r, v2)
 			ruleMergeRender(w, r, v2)
 			rulePathFresh(w, r, v2, "v2")
+			ruleDeleteVoid(w, r, newPatchFamily(w, v2, "v2"))
 			ruleWholeObject(w, r, v2, "v2", "Add")
 		}})
 	register(&PropSpec{ID: "C12",
@@ -343,6 +362,7 @@ func init() {
 			pf := newPatchFamily(w, v2, "v2")
 			ruleFWD(w, r, pf, []string{"newValues", "strategy", "pathAhead"})
 			ruleDescend(w, r, pf)
+			ruleDeleteVoid(w, r, pf)
 			rulePathFresh(w, r, v2, "v2")
 		}})
 }
@@ -372,6 +392,8 @@ func init() {
 			ruleProv(w, r, lib, "lib", map[string]string{"OldValues": "a", "NewValues": "b"})
 			ruleNoEmpty(w, r, lib, "lib", "OldValues", "NewValues")
 			rulePathFresh(w, r, lib, "lib")
+			ruleIdentUse(w, r, lib, "lib")
+			ruleObjRecurse(w, r, lib, "lib")
 			r.Floor("R-FWD(lib)", 60)
 			r.Floor("R-OPTFWD(lib)", 80)
 		}})
@@ -384,6 +406,7 @@ func init() {
 			rulePtr(w, r, lib, "lib")
 			rulePair(w, r, lib, "lib")
 			rulePathFresh(w, r, lib, "lib")
+			ruleWholeObject(w, r, lib, "lib", "NewValues")
 			ruleJSONCodec(w, r, lib, "lib")
 		}})
 }
